@@ -483,6 +483,14 @@ def run(ctx):
 
     from .common import robots_after_verdict_rule
     robots_after_verdict_rule(ctx, 'C02-D4')
+    # list options (-A, -X, -I, --hostnames, --domains ...) reach their filters as typed: the converter splits at commas and strips
+    # blanks, nothing else (directory and suffix lists are case-sensitive)
+    cl = repo.func('wpull.application.options:AppArgumentParser.comma_list')
+    allowed = {'split', 'strip', 'list', 'tuple'}
+    extra = sorted({(U.attr_name(c) or (c.func.id if isinstance(c.func, ast.Name) else '?')) for c in U.calls(cl.node)} - allowed)
+    ck.expect(not extra, 'C02-D5', cl.qual, 'comma_list: split(",") and strip() only',
+              'the list converter also applies %s to every item: a directory, suffix or host given with other spelling no longer matches the '
+              'URLs it was meant for (-X /Private becomes /private and /Private/... is crawled)' % extra, cl.loc())
     from .common import hostnames_agreement_rule
     hostnames_agreement_rule(ctx, 'C02-D5')
     from .common import prefilter_judges_child_rule
